@@ -1226,6 +1226,21 @@ class RawAlgorithmsMixIn:
             ybar_data = ybar_data[...,None]
             zbar_data = zbar_data[...,None]
 
+        if x_data.ndim > 4 or y_data.ndim > 4:
+            # N-dimensional operands, z[a...,b...,n] = sum_k x[a...,k] y[b...,k,n]:
+            # reduce to the matrix case (A,K) x (K,B*N)
+            D,P = x_data.shape[:2]
+            K = x_data.shape[-1]
+            x2 = x_data.reshape((D,P,-1,K))
+            ym = numpy.moveaxis(y_data, -2, 2)
+            y2 = ym.reshape((D,P,K,-1))
+            zbar2 = zbar_data.reshape((D,P,x2.shape[2],y2.shape[3]))
+            xbar2 = cls._dot(zbar2, cls._transpose(y2))
+            ybar2 = cls._dot(cls._transpose(x2), zbar2)
+            xbar_data += xbar2.reshape(x_data.shape)
+            ybar_data += numpy.moveaxis(ybar2.reshape(ym.shape), 2, -2)
+            return out
+
         xbar_data += cls._dot(zbar_data, cls._transpose(y_data), out = xbar_data.copy())
         ybar_data += cls._dot(cls._transpose(x_data), zbar_data, out = ybar_data.copy())
 
